@@ -153,6 +153,34 @@ def register(E):
     I['@verifClockReadings'] = lambda E, a: E.clock_count
     I['@verifClockLast'] = lambda E, a: E.clock_last if E.clock_last is not None else 0
 
+    def v_rungor(E, args):
+        """verifRunGoroutines(f): run f (if not nil) and everything it spawns, round-robin, until quiescence;
+        true when some goroutine is still blocked. May be called again to continue after the harness changed something."""
+        from .sched import Scheduler
+        if E.sched is None:
+            E.sched = Scheduler(E)
+        f = args[0]
+        if f is not None:
+            E.sched.spawn(lambda: E.call_value(f, []), name='main')
+        return E.sched.run()
+    I['@verifRunGoroutines'] = v_rungor
+
+    def v_blockuntil(E, args):
+        p = args[0]
+        if E.in_goroutine():
+            E.sched.block(lambda: E._truth(E.load(p)), what='transport (blocked until the harness flag is set)')
+            return None
+        if not E._truth(E.load(p)):
+            raise Blocked()
+        return None
+    I['@verifBlockUntil'] = v_blockuntil
+
+    def v_blocked_count(E, args):
+        if E.sched is None:
+            return 0
+        return len([g for g in E.sched.gors if g.state == 'blocked'])
+    I['@verifBlockedGoroutines'] = v_blocked_count
+
     def v_stop(E, args):
         raise GoExit()
     I['@verifStop'] = v_stop
@@ -342,9 +370,28 @@ def register(E):
 
     # ---------------------------------------------------------------- sync
     for n in ('(*sync.Mutex).Lock', '(*sync.Mutex).Unlock', '(*sync.RWMutex).Lock', '(*sync.RWMutex).Unlock',
-              '(*sync.RWMutex).RLock', '(*sync.RWMutex).RUnlock', '(*sync.WaitGroup).Add', '(*sync.WaitGroup).Done',
-              '(*sync.WaitGroup).Wait'):
+              '(*sync.RWMutex).RLock', '(*sync.RWMutex).RUnlock'):
         I[n] = lambda E, a: None
+
+    def wg_key(p):
+        return (id(p.obj), p.path)
+
+    def wg_add(E, args):
+        k = wg_key(args[0])
+        E.wg_counters[k] = E.wg_counters.get(k, 0) + E.conc_int(args[1], 64, True)
+    I['(*sync.WaitGroup).Add'] = wg_add
+
+    def wg_done(E, args):
+        k = wg_key(args[0])
+        E.wg_counters[k] = E.wg_counters.get(k, 0) - 1
+    I['(*sync.WaitGroup).Done'] = wg_done
+
+    def wg_wait(E, args):
+        k = wg_key(args[0])
+        if E.in_goroutine():
+            E.sched.block(lambda: E.wg_counters.get(k, 0) <= 0, what='WaitGroup.Wait')
+        return None
+    I['(*sync.WaitGroup).Wait'] = wg_wait
 
     # ---------------------------------------------------------------- math
     I['math.Float32bits'] = lambda E, a: a[0].v
